@@ -58,7 +58,7 @@ def run(ctx):
     n = 1200 if ctx.tier == "quick" else 20000
     done = 0
     while done < n and ctx.time_left() > 5:
-        batch = gen_valid_graphs(ctx, min(300, n - done), max_demes=7 if ctx.tier == "quick" else 10)
+        batch = gen_valid_graphs(ctx, min(300, n - done), corpus=True, max_demes=7 if ctx.tier == "quick" else 10)
         done += len(batch)
         reqs = []
         for doc, g, _ in batch:
